@@ -39,7 +39,7 @@ M = [
     ("m22_ring_label_reuse", SU, "rnum = ring_log.setdefault(ends, len(ring_log) + 1)", "rnum = ring_log.setdefault(ends, (len(ring_log) % 60) + 1)", ["C01", "C02"]),
     # ------------------------------------------------------------ encoder
     ("m30_ring_distance_wrong_beyond_16", E, "Q_as_symbols = get_selfies_from_index(ring_len - 1)", "Q_as_symbols = get_selfies_from_index(ring_len - 1 if ring_len < 18 else ring_len)", ["C03", "C10", "C16"]),
-    ("m31_chirality_sort_dropped", E, "    partition[1].sort(key=lambda x: out_bonds[x].dst)\n", "", ["C04"]),
+    ("m31_chirality_sort_dropped", E, "    partition[0].sort(key=lambda x: ring_order[\n        (min(out_bonds[x].src, out_bonds[x].dst),\n         max(out_bonds[x].src, out_bonds[x].dst))])\n", "", ["C04"]),
     ("m32_never_invert", E, "    return count % 2 != 0  # if odd permutation, should invert chirality", "    return False", ["C04"]),
     ("m33_ring_stereo_ends_swapped", E, "        bond_char = \"-\" if (lbond.stereo is None) else lbond.stereo\n        bond_char += \"-\" if (rbond.stereo is None) else rbond.stereo",
      "        bond_char = \"-\" if (rbond.stereo is None) else rbond.stereo\n        bond_char += \"-\" if (lbond.stereo is None) else lbond.stereo", ["C04"]),
